@@ -1,5 +1,6 @@
 import PvlModel.Lemmas.ParserFrame
 import PvlModel.Lemmas.ParseSpec
+import PvlModel.Lemmas.ParserLines
 /-!
 # C08 — missing values: tolerated by the default loader only
 
@@ -13,9 +14,13 @@ so a text whose only reading needs a placeholder cannot be loaded by a strict pa
 (`C06_errors` says what).  The proof is a second Hoare pass (`Lemmas/ParserFrame.lean`) over all parser
 functions with the invariant "`errors = []`, no placeholder in any value built so far".
 
-The permissive half (the placeholder carries the 1-based line of its `=`, `errors` lists exactly those
-lines, sorted) is decided by the generator-built expectation in `vlib/props/c08.py` against the real
-loader and the model; the theorem for it is open.
+The permissive half, one direction (`C08_placeholders_listed`, for every parser class and text): every
+`EmptyValueAtLine` placeholder anywhere in a module that `parse()` returns has its line number in
+`parser.errors` — no repair goes unreported.  (Fourth Hoare pass, `Lemmas/ParserLines.lean`: `errors` only
+grows, and each function's result has its placeholders listed by the time it returns.)  The converse
+(every recorded line still belongs to a placeholder in the module; the line is that of the `=`; the list
+is sorted) is decided by the generator-built expectation in `vlib/props/c08.py` against the real loader
+and the model.
 -/
 namespace Pvl
 open P
@@ -46,6 +51,31 @@ theorem C08_strict_no_placeholder (g : Grammar) (d : Dec) (kind : ParserKind) (h
   | error e =>
     simp only [Clean] at hs
     exact ⟨hs, fun m' hm => by cases hm⟩
+
+/-- **C08, no repair goes unreported**: every placeholder in a returned module is listed in `errors` -/
+theorem C08_placeholders_listed (g : Grammar) (d : Dec) (kind : ParserKind) (prior : List Int) (text : Str)
+    (m : Items) (h : (parseWith g d kind prior text).outcome = .ok m) :
+    ∀ x ∈ linesI m, x ∈ (parseWith g d kind prior text).errors := by
+  revert h
+  unfold parseWith
+  simp only
+  generalize (if kind == ParserKind.omni then omniPrepass text else text) = doc
+  generalize lexAll g d doc = lx
+  obtain ⟨toks, tail⟩ := lx
+  simp only
+  have hs := triple_elim _ _ _ _
+    (moduleLoop_ln ⟨g, d, kind, doc, tail⟩ (fuelFor (toks.length + 2)) [] [])
+    ⟨⟨toks, none, none, false⟩, [], [], none, false⟩ (by simp)
+  revert hs
+  generalize (moduleLoop ⟨g, d, kind, doc, tail⟩ [] (fuelFor (toks.length + 2))).run.run
+    ⟨⟨toks, none, none, false⟩, [], [], none, false⟩ = res
+  obtain ⟨r, st'⟩ := res
+  intro hs h
+  simp only at h
+  subst h
+  exact hs.1
+
+example : (Val.cont .group [([97], .seq [.int 1, .empty 3])]).lines = [3] := by decide
 
 /-- the placeholder the default loader makes is recognised by `noEmpty` (non-vacuity of the predicate) -/
 example : (Val.cont .group [([97], .seq [.int 1, .empty 3])]).noEmpty = false := by decide
